@@ -52,7 +52,7 @@ class Run:
             "property binding, registration tables executed concretely, torch.library.impl -> dispatch-key table, "
             "contextmanager -> try/yield/finally)", "autograd ctx plumbing of Function.apply", "__repr__",
         ]
-        self.timeout = float(os.environ.get("QVC_TIMEOUT", "20" if tier == "quick" else "180"))
+        self.timeout = float(os.environ.get("QVC_TIMEOUT", "60" if tier == "quick" else "300"))
         with open(os.path.join(VERIF, "known_findings.json")) as f:
             self.known = [k for k in json.load(f)["findings"] if k["property"] == pid]
 
